@@ -30,7 +30,7 @@ def main():
 
     def wrapper(step):
         enter_store(step)
-        key = (step["f"], step.get("kind", "function"), tuple(step.get("ignore") or ()), bool(step.get("compress")), step.get("frozen"), step.get("store", ""))
+        key = (step["f"], step.get("kind", "function"), tuple(step.get("ignore") or ()), bool(step.get("compress")), step.get("frozen"), step.get("store", ""), bool(step.get("wrapped")))
         if key not in wrappers:
             ck = (bool(step.get("compress")), step.get("store", ""))
             if ck not in mems:
@@ -40,6 +40,8 @@ def main():
                 target = getattr(sigmod, "INST_" + step["f"]).m
             elif kind == "partial":
                 target = functools.partial(getattr(sigmod, step["f"]), *eval(step.get("frozen", "()"), {"frozenset": frozenset}))
+                if step.get("wrapped"):
+                    target = functools.update_wrapper(target, getattr(sigmod, step["f"]))
             else:
                 target = getattr(sigmod, step["f"])
             wrappers[key] = (mems[ck].cache(target, ignore=list(step["ignore"])) if step.get("ignore") else mems[ck].cache(target), target)
